@@ -18,6 +18,7 @@ import (
 	"io"
 	"os"
 	"os/exec"
+	"runtime"
 	"runtime/debug"
 	"strings"
 	"syscall"
@@ -69,6 +70,8 @@ type Obs struct {
 	Vals  []int64  `json:"vals,omitempty"`
 	List  []string `json:"list,omitempty"`
 	Msg   string   `json:"msg,omitempty"`
+	// Restart: goroutines of the implementation were still running when the case was answered
+	Restart bool `json:"restart,omitempty"`
 }
 
 func okClass(c string) bool { return c == "ok" || c == "error" }
@@ -90,7 +93,16 @@ func childMain() {
 				fmt.Fprintln(os.Stderr, "child: bad case:", e)
 				os.Exit(3)
 			}
+			base := runtime.NumGoroutine()
 			o := safeExec(c)
+			// goroutines started by the implementation (prefetch) must have ended - or crashed the process - before this
+			// case is answered; otherwise the next case gets a fresh child
+			for i := 0; i < 100 && runtime.NumGoroutine() > base; i++ {
+				time.Sleep(5 * time.Millisecond)
+			}
+			if runtime.NumGoroutine() > base {
+				o.Restart = true
+			}
 			b, _ := json.Marshal(o)
 			out.Write(b)
 			out.WriteByte('\n')
@@ -207,8 +219,8 @@ func runIsolated(c Case) Obs {
 			if err := json.Unmarshal(l, &o); err != nil {
 				return Obs{Class: "crash", Msg: "bad child output"}
 			}
-			if o.Class == "panic" {
-				// goroutines of the panicked call may still run: a fresh child for the next case
+			if o.Class == "panic" || o.Restart {
+				// goroutines of a panicked call / of the prefetch may still run: a fresh child for the next case
 				ch.kill()
 				theChild = nil
 			}
